@@ -164,9 +164,10 @@ class Rule(Expression):
                 gen.writeln(f"{pairs_var}.extend({children})")
                 gen.writeln(f"return {matched_var}")
             else:
-                # Tag child pairs with the last tag on the stack
+                # Tag child pairs with the last tag on the stack.
+                # A rule that failed must leave the tag for the next attempt.
                 tag_var = gen.new_temp("tag")
-                gen.writeln("if state.tag_stack:")
+                gen.writeln(f"if {matched_var} and state.tag_stack:")
                 with gen.block():
                     gen.writeln(f"{tag_var}: str | None = state.tag_stack.pop()")
                 gen.writeln("else:")
